@@ -313,4 +313,40 @@ theorem parseControlFile_enc (c : ControlData) (h : c.WF) (crc pad : Nat) (hcrc 
   obtain ⟨f, h1, h2, _⟩ := parseControlFile_enc_full c h crc pad hcrc
   exact ⟨f, h1, h2⟩
 
+/-! ### inferPGVersion (fixes/control/22) -/
+
+/-- the released major 12–17 of a catalog version, as a chain of comparisons -/
+theorem pgMajorOfCatalog_eq (cat : Nat) : pgMajorOfCatalog cat =
+    if cat = 201909212 then some 12 else if cat = 202007201 then some 13 else if cat = 202107181 then some 14
+    else if cat = 202209061 then some 15 else if cat = 202307071 then some 16 else if cat = 202406281 then some 17
+    else none := by
+  unfold pgMajorOfCatalog pgReleases
+  simp only [List.find?_cons, List.find?_nil]
+  repeat' split
+  all_goals first | rfl | (exfalso; simp_all)
+
+/-- the catalog version of a released major decides, whatever the control version -/
+theorem inferPGVersion_of_catalog (cv cat M : Nat) (h : pgMajorOfCatalog cat = some M) : Model.inferPGVersion cv cat = M := by
+  rw [pgMajorOfCatalog_eq] at h
+  unfold Model.inferPGVersion
+  repeat' split at h
+  all_goals (cases h <;> simp [*])
+
+/-- any other catalog version: below 12, and 0 under a control version of PostgreSQL 12 or later -/
+theorem inferPGVersion_unknown (cv cat : Nat) (h : pgMajorOfCatalog cat = none) :
+    Model.inferPGVersion cv cat < 12 ∧ (cv ≥ 1201 → Model.inferPGVersion cv cat = 0) := by
+  rw [pgMajorOfCatalog_eq] at h
+  have h1 : cat ≠ 201909212 := by intro e; simp [e] at h
+  have h2 : cat ≠ 202007201 := by intro e; simp [e] at h
+  have h3 : cat ≠ 202107181 := by intro e; simp [e] at h
+  have h4 : cat ≠ 202209061 := by intro e; simp [e] at h
+  have h5 : cat ≠ 202307071 := by intro e; simp [e] at h
+  have h6 : cat ≠ 202406281 := by intro e; simp [e] at h
+  unfold Model.inferPGVersion
+  rw [if_neg h6, if_neg h5, if_neg h4, if_neg h3, if_neg h2, if_neg h1]
+  constructor
+  · repeat' split
+    all_goals omega
+  · intro hcv; rw [if_pos hcv]
+
 end PgVerif.Proofs
